@@ -12,4 +12,9 @@ fn main() {}
 R
 verus build/_warm.rs >/dev/null 2>&1 || { echo "verus cannot verify a trivial file" >&2; exit 1; }
 rm -f build/_warm.rs
+# Kani: cold-compile the crate once under cargo kani into build/kani_target (several minutes); later runs are incremental
+if command -v cargo-kani >/dev/null 2>&1 || cargo kani --version >/dev/null 2>&1; then
+  python3 tools/kani_run.py /repo le8_injective > build/kani_setup.json 2>build/kani_setup.err || true
+  grep -q '"status": "ok"' build/kani_setup.json && echo "kani warm" || echo "kani warm-up did not succeed (checks will retry)" >&2
+fi
 echo setup ok
